@@ -42,13 +42,30 @@ def gen(tier, rnd):
         for s in steps:
             if "exec" in s and inp != "pipe":
                 s["exec"]["during"] = False
-        cases.append({"opts": o, "steps": steps, "input": inp})
+        cases.append({"opts": o, "steps": steps, "input": inp, "const_view": rnd.random() < 0.4})
+    # type-ahead: a burst of keys is read at once, an early one makes Update start the external command; the later
+    # keys and what is typed after the command must still arrive
+    for _ in range(4 if tier == "quick" else 40):
+        o = {"alt": True} if rnd.random() < 0.5 else {}
+        cases.append({"opts": o, "steps": [], "input": "pipe", "typeahead": rnd.choice([3, 5, 8]), "const_view": False})
     return cases
+
+
+def typeahead_scenario(i, c):
+    n = c["typeahead"]
+    keys = list(range(1, n + 1))         # ctrl+a, ctrl+b, ... : one key event each, all in one write
+    upd = {"key:ctrl+a": {"cmd": {"id": 0, "msg": P.B("exec", cb=True)}}}
+    script = [P.W("started"), P.W("idle"), P.DO("input", bytes=keys), P.DO("sleep", us=900000), P.W("idle"),
+              P.DO("input", bytes=[122]), P.DO("sleep", us=50000), P.W("idle"), P.DO("quit"), P.W("returned")]
+    return P.scenario(i, script, opts=dict(c["opts"], fps=120), inp={"kind": "pipe"}, update=upd, watchdog_ms=6000, parallel_ok=True)
 
 
 def scenarios(cases):
     scs = []
     for i, c in enumerate(cases):
+        if c.get("typeahead"):
+            scs.append(typeahead_scenario(i, c))
+            continue
         script = [P.W("started"), P.W("idle")]
         k = 0
         for s in c["steps"]:
@@ -70,7 +87,8 @@ def scenarios(cases):
         inp = {"kind": c["input"]}
         if c["input"] == "reader":
             inp["end"] = "hold"
-        scs.append(P.scenario(i, script, opts=dict(c["opts"], fps=120), inp=inp, watchdog_ms=6000, parallel_ok=True))
+        view = {"text": "same view\n"} if c.get("const_view") else {}
+        scs.append(P.scenario(i, script, opts=dict(c["opts"], fps=120), inp=inp, watchdog_ms=6000, parallel_ok=True, view=view))
     return scs
 
 
@@ -78,6 +96,17 @@ def analyse(c, r):
     probs, samples = [], []
     evs = r["events"]
     out_b = bytes(r["output"])
+    if c.get("typeahead"):
+        keys = [e.get("key", "") for e in evs if e["ev"] == "UpdateBegin"]
+        want = ["key:ctrl+%s" % chr(96 + k) for k in range(1, c["typeahead"] + 1)]
+        got = [k for k in keys if k.startswith("key:ctrl+")]
+        if got != want:
+            probs.append(("typeahead-lost", "keys typed ahead of an Exec: sent %s, Update saw %s" % (want, got)))
+        if "key:z" not in keys:
+            probs.append(("input-not-resumed", "input typed after an Exec that started while typed-ahead keys were queued was never read"))
+        if sum(1 for e in evs if e["ev"] == "ExecRunBegin") != 1:
+            probs.append(("exec-count", "the external command did not run exactly once"))
+        return probs, samples
     begins = [e for e in evs if e["ev"] == "ExecRunBegin"]
     ends = [e for e in evs if e["ev"] == "ExecRunEnd"]
     execs = [s["exec"] for s in c["steps"] if "exec" in s]
@@ -111,7 +140,7 @@ def analyse(c, r):
         # painting happens on the renderer's ticker, so no tighter deadline is imposed)
         nxt = next((x for x in evs if x["ev"] == "UpdateBegin" and x.get("key") == "u:%d" % (500 + k)), None)
         limit = begins[k + 1]["outlen"] if k + 1 < len(begins) else len(out_b)
-        if b"view " not in out_b[en["outlen"]:limit]:
+        if (b"same view" if c.get("const_view") else b"view ") not in out_b[en["outlen"]:limit]:
             probs.append(("no-repaint", "the view was not painted again after command %d although the screen had been handed over" % k))
         samples.append({"before": P.mode_tokens(out_b[:b["outlen"]]), "begin": b["outlen"], "end": en["outlen"],
                         "after": P.mode_tokens(out_b[:nxt["outlen"]]) if nxt is not None else None})
@@ -191,6 +220,7 @@ def run(res, tier, seed):
         "failing_commands": sum(1 for c in cases for s in c["steps"] if "exec" in s and not s["exec"]["ok"]),
         "input_during": sum(1 for c in cases for s in c["steps"] if "exec" in s and s["exec"]["during"]),
         "input_kinds": {k: sum(1 for c in cases if c["input"] == k) for k in ("pipe", "reader", "none")},
+        "constant_view": sum(1 for c in cases if c.get("const_view")), "typeahead": sum(1 for c in cases if c.get("typeahead")),
         "options": {k: sum(1 for c in cases if c["opts"].get(k)) for k in ("alt", "mouse", "nopaste", "focus")},
     }
     res.coverage["traces_validated_against_impl"] = len(cases)
